@@ -72,7 +72,7 @@ impl Property for C12 {
     fn components_stubbed(&self) -> Vec<&'static str> { vec!["ObjectStore -> SimStore (put not atomic, rename atomic, faults by call index)", "workers/timers not run: push, flush and compact are called directly in sequence"] }
     fn assumptions(&self) -> Vec<&'static str> { vec!["object-store contract: rename is atomic, put may leave any prefix, delete is atomic", "keys are unique per update so that compaction's keep-latest rule cannot legitimately drop one (C13 covers overwrites and tombstones)"] }
     fn required_probes(&self) -> Vec<&'static str> { vec!["crash_after_confirmed_flush", "compaction_ran", "failed_flush_then_later_flush"] }
-    fn runs(&self, tier: Tier) -> u64 { match tier { Tier::Quick => 250, Tier::Thorough => 5000 } }
+    fn runs(&self, tier: Tier) -> u64 { match tier { Tier::Quick => 8000, Tier::Thorough => 300000 } }
 
     fn derive(&self, tape: &[u64], rep: &RunReport, tier: Tier) -> Vec<Vec<u64>> {
         if tape.len() < 5 || tape[0] % 3 != 0 { return vec![]; }
